@@ -46,7 +46,41 @@ class Ctx:
         return self._pdbs(name)
 
     # ---- declaring
+    _remap = None
+
+    def shared(self, mapping):
+        """context manager: rules of another property's spec run here under this property's rule ids
+        (mapping: foreign rule id -> (own rule id, own text or None))"""
+        ctx = self
+
+        class _S:
+            def __enter__(self_):
+                self_.old = ctx._remap
+                ctx._remap = dict(mapping)
+                return ctx
+
+            def __exit__(self_, *a):
+                ctx._remap = self_.old
+                return False
+        return _S()
+
+    def _rid(self, rid):
+        if self._remap and rid in self._remap:
+            return self._remap[rid][0]
+        return rid
+
+    def _rkey(self, key, rid_old, rid_new):
+        if key and rid_old != rid_new and key.startswith(rid_old):
+            return rid_new + key[len(rid_old):]
+        return key
+
     def rule(self, rid, text):
+        if self._remap and rid in self._remap:
+            new, txt = self._remap[rid]
+            self.rules[new] = txt or text
+            return
+        if self._remap is not None:
+            return   # foreign rule not mapped: ignored here
         self.rules[rid] = text
 
     def touch(self, *fns):
@@ -54,11 +88,19 @@ class Ctx:
             self.analysed_fns.add(f if isinstance(f, str) else f.name)
 
     def ok(self, rule, instance, where="", detail=""):
+        if self._remap is not None and rule not in self._remap:
+            return
+        rule = self._rid(rule)
         self.obls.append({"rule": rule, "instance": instance, "where": where, "verdict": "holds", "detail": detail})
 
     def violation(self, rule, instance, where, detail, key=None, path=None, expected=None, found=None):
         """key: stable identity of the failing construct (no line numbers) used to match known findings"""
+        if self._remap is not None and rule not in self._remap:
+            return
         key = key or ("%s:%s" % (rule, instance))
+        new_rule = self._rid(rule)
+        key = self._rkey(key, rule, new_rule)
+        rule = new_rule
         o = {"rule": rule, "instance": instance, "where": where, "verdict": "violation", "detail": detail,
              "key": key}
         if path:
@@ -91,6 +133,9 @@ class Ctx:
 
     def floor(self, rule, n, floor):
         from .pdb import AnalysisBroken
+        if self._remap is not None and rule not in self._remap:
+            return
+        rule = self._rid(rule)
         if n < floor:
             raise AnalysisBroken("rule %s matched %d instances, fewer than its confirmed floor %d "
                                  "(anchor moved or idiom not recognised)" % (rule, n, floor))
